@@ -3,7 +3,6 @@ package harness
 import (
 	"fmt"
 	"net/http"
-	"os"
 	"path/filepath"
 	"sort"
 	"strings"
@@ -120,14 +119,24 @@ func runC06Api(tb report.TB, rep *report.Reporter, c c06ApiCase) {
 		}
 		return repo
 	}
-	// the action: open the cache like the web UI does, send the mutation
+	// the action: open the cache like the web UI does, send the mutation. Crash points inside the opening of the
+	// cache are not enumerated: they precede the action, and git-bug's MultiRepoCache leaves the builders of a
+	// failed build behind, holding the index files of the directory for as long as the (here: surviving) process lives.
+	buildEnd := 0
 	action := func(repo repository.ClockedRepo) error {
 		mrc := cache.NewMultiRepoCache()
 		_, events := mrc.RegisterDefaultRepository(repo)
-		for ev := range events {
-			if ev.Err != nil {
-				return ev.Err
+		var buildErr error
+		for ev := range events { // drained to the end: the builders must not be left behind holding the index files
+			if ev.Err != nil && buildErr == nil {
+				buildErr = ev.Err
 			}
+		}
+		if buildErr != nil {
+			return buildErr
+		}
+		if fr, ok := repo.(*faultrepo.Repo); ok && fr.AbortAt < 0 {
+			buildEnd = len(fr.Log)
 		}
 		r := mux.NewRouter()
 		r.Use(auth.Middleware(entity.Id(w.AuthorIds[0])))
@@ -146,7 +155,7 @@ func runC06Api(tb report.TB, rep *report.Reporter, c c06ApiCase) {
 	counter := faultrepo.New(repo, -1)
 	aerr := action(counter)
 	_ = repo.Close()
-	_ = os.Remove(filepath.Join(work, ".git", "git-bug", "lock"))
+	DeadenLock(work)
 	N := len(counter.Log)
 	if aerr != nil {
 		// the API refuses the action as a whole (closing a closed bug, ...): nothing is enumerated
@@ -166,7 +175,7 @@ func runC06Api(tb report.TB, rep *report.Reporter, c c06ApiCase) {
 	if changed != 1 {
 		tb.Fatalf("harness: the action %s changed %d bugs\npre  %v\npost %v", c.Mutation, changed, pre, post)
 	}
-	for k := 0; k < N; k++ {
+	for k := buildEnd; k < N; k++ {
 		if c.OnlyK >= 0 && c.OnlyK != k {
 			continue
 		}
@@ -174,7 +183,7 @@ func runC06Api(tb report.TB, rep *report.Reporter, c c06ApiCase) {
 		repo := open()
 		_ = action(faultrepo.New(repo, k))
 		_ = repo.Close()
-		_ = os.Remove(filepath.Join(work, ".git", "git-bug", "lock"))
+		DeadenLock(work)
 		kc := c
 		kc.OnlyK = k
 		rep.Case(fmt.Sprintf("api|%s|closed=%v|N=%d|k=%d", c.Mutation, c.Closed, N, k), mutationKind(counter.Log[k]) != "Witness", []string{"api-action:" + c.Mutation, "abort-at:" + mutationKind(counter.Log[k])}, kc)
@@ -186,6 +195,15 @@ func runC06Api(tb report.TB, rep *report.Reporter, c c06ApiCase) {
 			}
 		}
 		st, err := bugShapes(re)
+		// the server starts again: the lock of the dead process is in the way, and has to be recognised as stale
+		if rc2, oerr := cache.NewRepoCacheNoEvents(re); oerr != nil {
+			if rep.Fail(tb, "C06/api/cache-does-not-open-after-crash/"+Normalize(oerr.Error()), where+"\n"+oerr.Error(), kc) {
+				_ = re.Close()
+				continue
+			}
+		} else {
+			_ = rc2.Close()
+		}
 		_ = re.Close()
 		if err != nil {
 			if rep.Fail(tb, "C06/api/entity-unreadable-after-crash/"+c.Mutation+"/"+Normalize(err.Error()), where+"\n"+err.Error(), kc) {
